@@ -1338,6 +1338,45 @@ def _run_ident(case, ck, info):
                 else:
                     _viol(ck, "mul-zero-raises", "%s did not raise (returned"
                           " %r)" % (txt, r))
+        # constants that are merely CLOSE to 0 or 1 are ordinary numbers:
+        # the result is a new derived prior with the shifted / scaled guess
+        g0 = X.guess
+        for c in (5e-9, -1e-9, 1e-12, 1e-300):
+            for txt, fn in (("%s + %r" % (nm, c), lambda: X + c),
+                            ("%r + %s" % (c, nm), lambda: c + X)):
+                try:
+                    r = fn()
+                    ck.trans += 1
+                    ok = isinstance(r, Prior) and r is not X and \
+                        r.guess == g0 + c
+                    det = "guess %r, expected %r" % (
+                        getattr(r, "guess", None), g0 + c)
+                except Exception as e:
+                    ok, det = False, "raised %s: %s" % (type(e).__name__, e)
+                ck.true("near-zero-is-a-number", ok, "%s: a constant close "
+                        "to 0 was not treated as an ordinary number (%s)" %
+                        (txt, det))
+        for c in (1e-9, -1e-12, 1 + 1e-6, 1 - 1e-9, 1e9):
+            forms = [("%s * %r" % (nm, c), lambda: X * c, g0 * c),
+                     ("%r * %s" % (c, nm), lambda: c * X, g0 * c)]
+            if c == 1e9:
+                forms = [("%s / %r" % (nm, c), lambda: X / c, None)]
+            for txt, fn, want in forms:
+                try:
+                    r = fn()
+                    ck.trans += 1
+                    ok = isinstance(r, Prior) and r is not X
+                    if want is not None:
+                        ok = ok and r.guess == want
+                    else:
+                        ok = ok and abs(r.guess - g0 / c) <= \
+                            4 * np.spacing(abs(g0 / c))
+                    det = "guess %r" % (getattr(r, "guess", None),)
+                except Exception as e:
+                    ok, det = False, "raised %s: %s" % (type(e).__name__, e)
+                ck.true("near-one-is-a-number", ok, "%s: a constant close to "
+                        "0 or 1 was not treated as an ordinary number (%s)" %
+                        (txt, det))
         # a non-trivial operand gives a new derived prior, not the operand
         for txt, fn in (("%s + 2" % nm, lambda: X + 2),
                         ("%s * 2" % nm, lambda: X * 2),
